@@ -398,7 +398,7 @@ class MibCompiler(object):
         #
 
         for mibname in failedMibs.copy():
-            if options.get('noDeps') and mibname not in canonicalMibNames:
+            if options.get('noDeps') and mibname not in canonicalMibNames and mibname not in mibnames:
                 debug.logger & debug.flagCompiler and debug.logger('excluding imported MIB %s from borrowing' % mibname)
                 continue
 
@@ -461,7 +461,7 @@ class MibCompiler(object):
                 debug.logger & debug.flagCompiler and debug.logger(
                     'no suitable compiled MIB %s found anywhere' % mibname)
 
-                if options.get('noDeps') and mibname not in canonicalMibNames:
+                if options.get('noDeps') and mibname not in canonicalMibNames and mibname not in mibnames:
                     debug.logger & debug.flagCompiler and debug.logger(
                         'excluding imported MIB %s from borrowing' % mibname)
                     processed[mibname] = statusUntouched
